@@ -5,10 +5,54 @@ from . import addr_common
 PROP = "C16"
 
 
+def extra_jobs(tier, seed):
+    import os
+    SHIM = os.path.join(core.VERIF, "shim", "idn")
+
+    def f(cx, exe, opts, extra, name):
+        if name != "asan-extra":
+            return []
+        from .. import addrgen as AG, model as _model
+        mdl = _model.Model()
+        addrs = AG.address_corpus("quick", seed, mdl)[seed % 4::4]
+        ref = cx.exe("asan")
+        jobs = []
+        for b in ("idn", "idnkit"):
+            fexe = cx.exe("asan-extra-%s" % b, backend=b, defs=["EAV_EXTRA"], extra_inc=(SHIM,), extra_objs_srcs=[os.path.join(SHIM, "adapter.c")])
+            for i in range(0, len(addrs), 1500):
+                jobs.append((w_foreign, (fexe, ref, addrs[i:i + 1500], b, opts)))
+        return jobs
+    return f
+
+
+def w_foreign(fexe, ref, addrs, backend, opts):
+    """High-level records of a foreign back end (EAV_EXTRA build) judged with the per-part verdicts of the libidn2 build."""
+    import collections
+    from .. import monitors, model as _model, driver, addrgen as AG
+    mdl = _model.Model()
+    cfg = monitors.Cfg(mdl, opts, True, {}, None)
+    part = {"counters": collections.Counter(), "viol": [], "samples": [], "distinct": 0, "sets": {}}
+    hl, c1 = driver.run_lines_resilient(fexe, [driver.A_line(a, sections=1, allow=cfg.allow_on) for a in addrs])
+    pt, c2 = driver.run_lines_resilient(ref, [driver.A_line(a, sections=4 | 8, allow=cfg.allow_on) for a in addrs])
+    for idx, sig, err in c1:
+        part["viol"].append(("%s/crash/%s" % (backend, sig), {"address": core.b2s(addrs[idx]) if idx >= 0 else ""}, {"stderr": err[-1500:]}))
+    for a, h, p in zip(addrs, hl, pt):
+        if h is None or p is None:
+            continue
+        rec = dict(p)
+        rec["hl"] = h["hl"]
+        out = []
+        monitors.mon_c16(cfg, a, rec, out, part["counters"])
+        for key, wit, det in out:
+            part["viol"].append(("%s/%s" % (backend, key), dict(wit, backend=backend), det))
+    part["distinct"] = len(addrs)
+    return {PROP: part}
+
+
 def main(tier, seed):
     rep, cx, n = addr_common.run(
         PROP, tier, seed, sections=1 | 2 | 4 | 8,
-        variants=[("asan", {}, False), ("asan-extra", {"defs": ["EAV_EXTRA"]}, True)], rule="",
+        variants=[("asan", {}, False), ("asan-extra", {"defs": ["EAV_EXTRA"]}, True)], rule="", extra_jobs=extra_jobs(tier, seed),
         assumptions=["'syntactically invalid' = the composition of the per-part validators (tld off) rejects",
                      "domain not FQDN / TLD errors are not syntax errors (flags may stay set there)"])
     c = rep.counters
